@@ -27,6 +27,10 @@ CHECKS.update({
  'C09': dict(level='exploration', technique='fault-plan enumeration plus stateless DFS over schedules (deviation bounding) on the instrumented real code with exact deadlock / virtual-time hang verdicts from the cooperative scheduler',
    text='(a) every single-fault plan of the C08 engine is followed by a probe suite (Put, Get, iterator, transactions, CompactRange, Close); every call must return. (b) clients racing Close, SetReadOnly, transactions and CompactRange are explored under all schedules within the deviation bound. The scheduler owns every blocking primitive, so "never returns" is decided exactly: no goroutine enabled and no timer pending (deadlock) or the virtual clock passing one hour with a client call outstanding (hang).',
    note='Virtual time (timers fire at quiescence); bounded schedules; faults start after the initial Open.', design='4/C09'),
+
+ 'C10': dict(level='exploration', technique='stateless DFS over schedules (deviation bounding) of N concurrent writers plus a lock competitor on the instrumented real code; deadlock verdict, linearizability and journal read-back oracles',
+   text='2-4 writers (merge on/off, one above the merge capacity so the hand-off path runs) plus Close / transaction / CompactRange / SetReadOnly are explored under every schedule within the bound. Each execution must end with every writer answered (exact deadlock/hang verdict), a linearizable history, and a journal whose records have contiguous disjoint sequence ranges containing every acknowledged write exactly once; evidence lists the merge-group shapes reached.',
+   note='Bounded schedules; group membership is read from journal records (no source hook).', design='4/C10'),
 })
 NA = {}
 
